@@ -391,6 +391,11 @@ func (p *program) parseArgs(args []string) error {
 		return fmt.Errorf("-concurrency must be at least 1, got %d", p.concurrency)
 	}
 
+	if p.exitCode < 1 || p.exitCode > 255 {
+		// The exit status is a byte: 0 and multiples of 256 would report success although issues were found.
+		return fmt.Errorf("-exitCode must be in the range 1..255, got %d", p.exitCode)
+	}
+
 	p.packages = p.flagSet.Args()
 	p.filters.enable = splitList(*enable)
 	p.filters.disable = splitList(*disable)
